@@ -314,6 +314,22 @@ for what, make in (("formula('')", lambda: formula("")), ("formula()", lambda: f
                  % (what, what, what, dict(c.atoms)), program="a = %s; b = %s; a += formula('H2O'); %s.atoms" % (what, what, what))
 
 cases, meta = [], []
+# copying a formula into another table leaves the original alone (operands are unchanged)
+try:
+    from periodictable import core as _core, mass as _mass
+    _T = _core.PeriodicTable("verif_c02")
+    _mass.init(_T)
+    for text in ("H2O@1", "Fe[56]{2+}O{2-}@5.7", "CaCO3(H2O)6@1.8"):
+        f = formula(text)
+        ids = [id(a) for a in f.atoms]
+        g = formula(f, table=_T)
+        h = formulas.mix_by_weight(f, 1, "NaCl@2.16", 2, table=_T)
+        if [id(a) for a in f.atoms] != ids or any((getattr(a, "table", None) or a.element.table) != "public" for a in f.atoms):
+            fail("C02:operand-changed", "f = formula(%r); formula(f, table=T) / mix_by_weight(f, .., table=T): f now holds %r"
+                 % (text, {repr(a): getattr(a, "table", None) or a.element.table for a in f.atoms}), program="formula(formula(%r), table=T)" % text)
+except Exception as e:  # noqa
+    fail("C02:operand-changed", "formula(f, table=T) raised %s: %s" % (type(e).__name__, e), program="formula(f, table=T)")
+
 stats = dict(exact=0, rounded=0, ops={})
 for i in range(nprog):
     exact = (i % 3 != 2)
